@@ -23,7 +23,8 @@ RULE = ("crash-point enumeration on the three programs: (1) a sys.monitoring LIN
         "leave it identical; after the flush ends the complete file (equal to an un-instrumented run modulo the header "
         "line) and the sentinel under #name.1# must be there. The temporary directory of the deferred writer is put on "
         "another file system when one is available. non-trivial = injected run that raised the fault; distinct = "
-        "(program, input, crash point)")
+        "(program, input, crash point)"
+        ' Later: after every failed call the next flush of the deferred writer is played and the directory compared again; every second fault point runs without a previous file; output names ending in letters of the suffix; a swallowed fault must still leave the complete output.')
 ASSUMPTIONS = ["an exception models a crash; DeferredFileWriter().close() afterwards models process exit",
                "faults strictly inside the writer's flush (between backup and final move) are recorded, not judged",
                "gen_seq has no backup clause; its crash points after open(outpath) are recorded only"]
